@@ -27,8 +27,38 @@
  * property statement names the alpha-map BOUNDS only).
  */
 #include "c03.h"
+
+/* The multi-rectangle branch of clip_general_image (translate / intersect / translate back) is
+ * dead when region and clip have <= 1 rectangle: asserted, not assumed.  The two names are
+ * intercepted for the text of pixman.c only (pixman-region32.c above keeps the real ones, and
+ * pixman_region32_intersect_rect -> the real pixman_region32_intersect is untouched). */
+static void vc_translate_unreachable (pixman_region32_t *r, int x, int y)
+{
+#ifdef VH_CBMC
+    VH_CHECK ("clip_general_image.multi_rect_branch_unreachable_for_single_rect_clips", 0);
+    __CPROVER_assume (0);
+#else
+    (pixman_region32_translate) (r, x, y);
+#endif
+}
+static pixman_bool_t vc_intersect_unreachable (pixman_region32_t *n, pixman_region32_t *a, pixman_region32_t *b)
+{
+#ifdef VH_CBMC
+    VH_CHECK ("clip_general_image.multi_rect_branch_unreachable_for_single_rect_clips", 0);
+    __CPROVER_assume (0);
+    return 0;
+#else
+    return (pixman_region32_intersect) (n, a, b);
+#endif
+}
+#ifndef VC_REAL_GENERAL_BRANCH
+#define pixman_region32_translate(r, x, y) vc_translate_unreachable (r, x, y)
+#define pixman_region32_intersect(n, a, b) vc_intersect_unreachable (n, a, b)
+#endif
 #define pixman_constructor vh_unused_pixman_constructor
 #include "pixman.c"
+#undef pixman_region32_translate
+#undef pixman_region32_intersect
 
 pixman_implementation_t *_pixman_choose_implementation (void) { return 0; }
 
@@ -36,118 +66,9 @@ static pixman_image_t vc_src, vc_mask, vc_dest, vc_src_amap, vc_mask_amap, vc_de
 
 void harness (void)
 {
-    /* request */
-    VH_IN (vh_i32, in_src_x); VH_IN (vh_i32, in_src_y);
-    VH_IN (vh_i32, in_mask_x); VH_IN (vh_i32, in_mask_y);
-    VH_IN (vh_i32, in_dest_x); VH_IN (vh_i32, in_dest_y);
-    VH_IN (vh_i32, in_width); VH_IN (vh_i32, in_height);
-    /* destination */
-    VH_IN (vh_i32, in_dw); VH_IN (vh_i32, in_dh);
-    VH_IN (vh_u8, in_d_have_clip);
-    VH_IN (vh_u8, in_d_shape);
-    VH_IN (vh_i32, in_dcx1); VH_IN (vh_i32, in_dcy1); VH_IN (vh_i32, in_dcx2); VH_IN (vh_i32, in_dcy2);
-    VH_IN (vh_u8, in_d_alpha);
-    VH_IN (vh_i32, in_aox); VH_IN (vh_i32, in_aoy); VH_IN (vh_i32, in_aw); VH_IN (vh_i32, in_ah);
-    /* source */
-    VH_IN (vh_u8, in_s_have_clip); VH_IN (vh_u8, in_s_clip_sources); VH_IN (vh_u8, in_s_client_clip);
-    VH_IN (vh_u8, in_s_shape);
-    VH_IN (vh_i32, in_scx1); VH_IN (vh_i32, in_scy1); VH_IN (vh_i32, in_scx2); VH_IN (vh_i32, in_scy2);
-    VH_IN (vh_u8, in_s_alpha);
-    VH_IN (vh_i32, in_s_aox); VH_IN (vh_i32, in_s_aoy);
-    /* mask */
-    VH_IN (vh_u8, in_m_present);
-    VH_IN (vh_u8, in_m_have_clip); VH_IN (vh_u8, in_m_clip_sources); VH_IN (vh_u8, in_m_client_clip);
-    VH_IN (vh_u8, in_m_shape);
-    VH_IN (vh_i32, in_mcx1); VH_IN (vh_i32, in_mcy1); VH_IN (vh_i32, in_mcx2); VH_IN (vh_i32, in_mcy2);
-    VH_IN (vh_u8, in_m_alpha);
-    VH_IN (vh_i32, in_m_aox); VH_IN (vh_i32, in_m_aoy);
-    /* ghost point */
-    VH_IN (vh_i32, in_px); VH_IN (vh_i32, in_py);
-
+#include "scene_inputs.inc"
     pixman_region32_t region;
     pixman_bool_t ret;
-    int s_enabled, m_enabled, S;
-    long px = in_px, py = in_py;
-    c03_box sb;
-
-    /* ---- "within int32 arithmetic range" */
-    VH_ASSUME (C03_INR (in_src_x) && C03_INR (in_src_y) && C03_INR (in_mask_x) && C03_INR (in_mask_y));
-    VH_ASSUME (C03_INR (in_dest_x) && C03_INR (in_dest_y) && C03_INR (in_width) && C03_INR (in_height));
-    /* ---- images described truthfully: sizes are not negative */
-    VH_ASSUME (in_dw >= 0 && in_dw <= C03_R && in_dh >= 0 && in_dh <= C03_R);
-    VH_ASSUME (in_aw >= 0 && in_aw <= C03_R && in_ah >= 0 && in_ah <= C03_R);
-    VH_ASSUME (C03_INR (in_aox) && C03_INR (in_aoy));
-    VH_ASSUME (C03_INR (in_s_aox) && C03_INR (in_s_aoy) && C03_INR (in_m_aox) && C03_INR (in_m_aoy));
-    VH_ASSUME (in_d_have_clip <= 1 && in_d_alpha <= 1 && in_d_shape <= 1 && in_s_shape <= 1 && in_m_shape <= 1);
-    VH_ASSUME (in_s_have_clip <= 1 && in_s_clip_sources <= 1 && in_s_client_clip <= 1 && in_s_alpha <= 1);
-    VH_ASSUME (in_m_present <= 1 && in_m_have_clip <= 1 && in_m_clip_sources <= 1 && in_m_client_clip <= 1 && in_m_alpha <= 1);
-
-    /* ---- case split */
-#ifdef VC_DCLIP
-    VH_ASSUME (in_d_have_clip == VC_DCLIP);
-#endif
-#ifdef VC_DALPHA
-    VH_ASSUME (in_d_alpha == VC_DALPHA);
-#endif
-    s_enabled = in_s_have_clip && in_s_clip_sources && in_s_client_clip;
-    m_enabled = in_m_present && in_m_have_clip && in_m_clip_sources && in_m_client_clip;
-#ifdef VC_SRC
-    VH_ASSUME (s_enabled == VC_SRC);
-#endif
-#ifdef VC_MASK
-#if VC_MASK == 0
-    VH_ASSUME (!in_m_present);
-#elif VC_MASK == 1
-    VH_ASSUME (in_m_present && !m_enabled);
-#else
-    VH_ASSUME (m_enabled);
-#endif
-#endif
-
-    /* ---- build the images */
-    vc_dest.type = BITS;
-    vc_dest.bits.width = in_dw;
-    vc_dest.bits.height = in_dh;
-    vc_dest.common.have_clip_region = in_d_have_clip;
-    c03_make_clip (&vc_dest.common.clip_region, in_d_shape, in_dcx1, in_dcy1, in_dcx2, in_dcy2);
-    if (in_d_alpha)
-    {
-        vc_dest_amap.type = BITS;
-        vc_dest_amap.bits.width = in_aw;
-        vc_dest_amap.bits.height = in_ah;
-        vc_dest_amap.common.have_clip_region = FALSE;     /* assumption: alpha maps have no clip region */
-        vc_dest.common.alpha_map = &vc_dest_amap.bits;
-        vc_dest.common.alpha_origin_x = in_aox;
-        vc_dest.common.alpha_origin_y = in_aoy;
-    }
-
-    vc_src.type = BITS;
-    vc_src.common.have_clip_region = in_s_have_clip;
-    vc_src.common.clip_sources = in_s_clip_sources;
-    vc_src.common.client_clip = in_s_client_clip;
-    c03_make_clip (&vc_src.common.clip_region, in_s_shape, in_scx1, in_scy1, in_scx2, in_scy2);
-    if (in_s_alpha)
-    {
-        vc_src_amap.type = BITS;
-        vc_src_amap.common.have_clip_region = FALSE;
-        vc_src.common.alpha_map = &vc_src_amap.bits;
-        vc_src.common.alpha_origin_x = in_s_aox;
-        vc_src.common.alpha_origin_y = in_s_aoy;
-    }
-
-    vc_mask.type = BITS;
-    vc_mask.common.have_clip_region = in_m_have_clip;
-    vc_mask.common.clip_sources = in_m_clip_sources;
-    vc_mask.common.client_clip = in_m_client_clip;
-    c03_make_clip (&vc_mask.common.clip_region, in_m_shape, in_mcx1, in_mcy1, in_mcx2, in_mcy2);
-    if (in_m_alpha)
-    {
-        vc_mask_amap.type = BITS;
-        vc_mask_amap.common.have_clip_region = FALSE;
-        vc_mask.common.alpha_map = &vc_mask_amap.bits;
-        vc_mask.common.alpha_origin_x = in_m_aox;
-        vc_mask.common.alpha_origin_y = in_m_aoy;
-    }
 
     pixman_region32_init (&region);
 
@@ -156,45 +77,7 @@ void harness (void)
                                               in_src_x, in_src_y, in_mask_x, in_mask_y,
                                               in_dest_x, in_dest_y, in_width, in_height);
 
-    /* ---- S(p), pointwise */
-    S = (long) in_dest_x <= px && px < (long) in_dest_x + in_width
-        && (long) in_dest_y <= py && py < (long) in_dest_y + in_height
-        && 0 <= px && px < in_dw && 0 <= py && py < in_dh;
-    if (in_d_have_clip)
-        S = S && c03_in_clip (in_d_shape, in_dcx1, in_dcy1, in_dcx2, in_dcy2, px, py);
-    if (in_d_alpha)
-        S = S && (long) in_aox <= px && px < (long) in_aox + in_aw && (long) in_aoy <= py && py < (long) in_aoy + in_ah;
-    if (s_enabled)
-        S = S && c03_in_clip (in_s_shape, in_scx1, in_scy1, in_scx2, in_scy2,
-                              px - ((long) in_dest_x - in_src_x), py - ((long) in_dest_y - in_src_y));
-    if (m_enabled)
-        S = S && c03_in_clip (in_m_shape, in_mcx1, in_mcy1, in_mcx2, in_mcy2,
-                              px - ((long) in_dest_x - in_mask_x), py - ((long) in_dest_y - in_mask_y));
-
-    /* ---- S as a box (an intersection of boxes is the box of the largest lower / smallest upper
-     * bounds), to decide emptiness */
-    sb.dead = 0;
-    sb.x1 = in_dest_x; sb.y1 = in_dest_y; sb.x2 = (long) in_dest_x + in_width; sb.y2 = (long) in_dest_y + in_height;
-    c03_meet (&sb, 0, 0, in_dw, in_dh);
-    if (in_d_have_clip)
-    {
-        if (in_d_shape) sb.dead = 1;
-        c03_meet (&sb, in_dcx1, in_dcy1, in_dcx2, in_dcy2);
-    }
-    if (in_d_alpha)
-        c03_meet (&sb, in_aox, in_aoy, (long) in_aox + in_aw, (long) in_aoy + in_ah);
-    if (s_enabled)
-    {
-        long dx = (long) in_dest_x - in_src_x, dy = (long) in_dest_y - in_src_y;
-        if (in_s_shape) sb.dead = 1;
-        c03_meet (&sb, in_scx1 + dx, in_scy1 + dy, in_scx2 + dx, in_scy2 + dy);
-    }
-    if (m_enabled)
-    {
-        long dx = (long) in_dest_x - in_mask_x, dy = (long) in_dest_y - in_mask_y;
-        if (in_m_shape) sb.dead = 1;
-        c03_meet (&sb, in_mcx1 + dx, in_mcy1 + dy, in_mcx2 + dx, in_mcy2 + dy);
-    }
+#include "scene_spec.inc"
 
     /* ---- postconditions */
     if (ret)
